@@ -31,16 +31,22 @@ def plan_entry(hook, occ, req, arg='-'):
     return {'hook': hook, 'occ': occ, 'req': req, 'arg': arg}
 
 
-def mc_module(name, prog, plan=(), fixes=(), alphabet=ALL_REQUESTS, k=2, out_missing=False, extra_defs='', cfg_extra='',
-              base='ProcessProps'):
+def family(names, out_missing=()):
+    """[{'name','steps','outMissing'}] for TLA+ constant Progs"""
+    return [{'name': n, 'steps': PROGS[n], 'outMissing': n in out_missing} for n in names]
+
+
+def mc_module(name, progs, plans=((),), fixes=(), alphabet=ALL_REQUESTS, k=2, extra_defs='', cfg_extra='',
+              base='ProcessProps', spec='Spec'):
+    """progs: list of {'name','steps','outMissing'}; plans: list of plans (each a list of plan entries)."""
     tla = '---- MODULE %s ----\nEXTENDS %s\n' % (name, base)
-    tla += 'MCProg == %s\n' % tlaval.emit(prog)
-    tla += 'MCPlan == %s\n' % tlaval.emit(list(plan))
+    tla += 'MCProgs == %s\n' % tlaval.emit(list(progs))
+    tla += 'MCPlans == %s\n' % tlaval.emit([list(p) for p in plans])
     tla += 'MCFixes == %s\n' % tlaval.emit(set(fixes))
     tla += 'MCAlphabet == %s\n' % tlaval.emit(set(alphabet))
     tla += extra_defs
     tla += '====\n'
-    cfg = 'SPECIFICATION Spec\nCHECK_DEADLOCK FALSE\nCONSTANTS\n Prog <- MCProg\n Plan <- MCPlan\n Fixes <- MCFixes\n'
-    cfg += ' Alphabet <- MCAlphabet\n OutMissing = %s\n K = %d\n' % ('TRUE' if out_missing else 'FALSE', k)
+    cfg = 'SPECIFICATION %s\nCHECK_DEADLOCK FALSE\nCONSTANTS\n Progs <- MCProgs\n Plans <- MCPlans\n Fixes <- MCFixes\n' % spec
+    cfg += ' Alphabet <- MCAlphabet\n K = %d\n' % k
     cfg += cfg_extra
     return tla, cfg
